@@ -713,6 +713,94 @@ func (m *MW) StepRace() {
 	m.rc.Nontrivial = true
 }
 
+// StepStaleRelease: a melt's payment has failed but the mint has not noticed yet (quote PENDING).
+// Two polls of that quote run concurrently with a third request that melts the same proofs
+// against a NEW quote as soon as they are released, and then tries to swap them. A poll that
+// read "pending under the old quote" before the other one released the proofs must not take the
+// NEW melt's lock away.
+func (m *MW) StepStaleRelease() {
+	var pm *PendingMelt
+	for _, x := range m.Pending {
+		if pay := m.W.LN.Payments[x.Key]; x.Known && pay != nil && pay.Truth == ptInflight {
+			pm = x
+			break
+		}
+	}
+	if pm == nil {
+		// make one: a melt whose payment stays in flight
+		m.W.LN.ForceNextPay = "pending"
+		m.StepMelt()
+		m.W.LN.ForceNextPay = ""
+		for _, x := range m.Pending {
+			if pay := m.W.LN.Payments[x.Key]; x.Known && pay != nil && pay.Truth == ptInflight {
+				pm = x
+				break
+			}
+		}
+		if pm == nil {
+			return
+		}
+	}
+	mint := pm.Mint
+	m.rc.Op("stale-release")
+	m.W.LN.ResolveInflight(pm.Key, false) // failed on Lightning; the mint still says PENDING
+	m.Unknown[pm.Ins[0].Secret] = true
+	for _, p := range pm.Ins {
+		m.Unknown[p.Secret] = true
+	}
+	ins := pm.Ins
+	ks := m.W.ActiveKeyset(mint)
+	fee := m.feeFor(mint, ins)
+	if SumH(ins) <= fee+2 {
+		return
+	}
+	inv2 := m.W.LN.NewExternalInvoice(((SumH(ins) - fee) / 2) * 1000)
+	m.W.LN.Scripts[inv2.Hash] = &LNScript{Pay: "pending"}
+	var q2 *MeltQuote
+	m.rc.Quietly(func() { q2, _ = m.Atk.ReqMeltQuote(mint, inv2.Bolt11, 0) })
+	if q2 == nil || q2.Amount+q2.Reserve+fee > SumH(ins) {
+		return
+	}
+	m.begin()
+	for i := 0; i < 2; i++ {
+		name := fmt.Sprintf("%s.poll%d", m.name("stale"), i)
+		m.rc.S.Go(name, m.W.Ext, true, func() {
+			a := NewActor(m.W, name)
+			if i == 0 {
+				a.PollMeltQuote(mint, pm.Q.ID)
+			} else {
+				a.CheckState(mint, []string{ins[0].Y()})
+			}
+		})
+	}
+	var locked bool
+	name := m.name("stale") + ".remelt"
+	m.rc.S.Go(name, m.W.Ext, true, func() {
+		a := NewActor(m.W, name)
+		for try := 0; try < 3 && !locked; try++ {
+			r := a.Melt(mint, q2.ID, ins)
+			if r.OK() && RespState(r) == "PENDING" {
+				locked = true
+			} else {
+				m.rc.S.Yield(m.W.Ext, "ext", "retry-melt")
+			}
+		}
+		if locked {
+			m.rc.S.Yield(m.W.Ext, "ext", "before-swap")
+			// while the new payment is in flight the proofs are locked: this must be refused
+			a.Swap(mint, ins, m.W.NewOutputs(Split(SumH(ins)-fee), ks.ID))
+		}
+	})
+	m.rc.S.Drive(false)
+	m.rc.S.Probe("stale_release_episode")
+	if locked {
+		m.rc.S.Probe("stale_release_relocked")
+		m.Pending = append(m.Pending, &PendingMelt{Mint: mint, Q: q2, Ins: ins, Key: mint + "|" + q2.Hash})
+	}
+	m.settlePending()
+	m.rc.Nontrivial = true
+}
+
 // StepCheckstate: query mixing known, unknown, repeated and malformed Ys.
 func (m *MW) StepCheckstate() {
 	mint := m.pickMint()
